@@ -604,6 +604,13 @@ def hand_fingerprints(g):
     for name in ('compute_grid_size_estimate', 'get_known_child_positions'):
         fps['hand:implicit_grid::' + name] = body(IMPLICIT_RS, name)
     fps['hand:track_sizing::resolve_item_track_indexes'] = body(TRACK_SIZING_RS, 'resolve_item_track_indexes')
+    fps['hand:style::grid_placement'] = body(GRID_RS, 'grid_placement')
+    fps['hand:geometry::other_axis'] = body('src/geometry.rs', 'other_axis')
+    gtoks = g.tokens('src/geometry.rs')
+    gi = [i for i in range(len(gtoks)) if seq_at(gtoks, i, ['impl', '<', 'T', ':', 'Copy', '>', 'InBothAbsAxis', '<', 'T', '>', '{'])]
+    if len(gi) != 1:
+        raise Refuse('geometry.rs: impl<T: Copy> InBothAbsAxis<T> not found')
+    fps['hand:geometry::InBothAbsAxis::get'] = norm_tokens(find_fn(gtoks, 'get', gi[0])[1])
     fps['hand:grid::from_grid_item'] = body(MOD_RS, 'from_grid_item')
     # grid/mod.rs: from the size estimate to the final track counts (which children are passed to which step)
     toks = g.tokens(MOD_RS)
